@@ -63,14 +63,14 @@ thread_local! {
     static F_DROPS: std::cell::Cell<u64> = const { std::cell::Cell::new(0) };
 }
 /// the other module's clone function: same effect as the library's, another address, counted
-unsafe extern "C" fn f_clone<A: Al>(p: *const c_void) -> *const c_void {
+unsafe extern "C" fn f_clone<A: Al>(p: *const std::ffi::c_void) -> *const std::ffi::c_void {
     let _ = F_CLONES.try_with(|c| c.set(c.get() + 1));
     if !p.is_null() {
         Arc::increment_strong_count(p as *const P<A>);
     }
     p
 }
-unsafe extern "C" fn f_drop<A: Al>(p: *const c_void) {
+unsafe extern "C" fn f_drop<A: Al>(p: *const std::ffi::c_void) {
     let _ = F_DROPS.try_with(|c| c.set(c.get() + 1));
     if !p.is_null() {
         Arc::decrement_strong_count(p as *const P<A>);
@@ -403,7 +403,7 @@ impl<A: Al> Sut<A> {
                 Op::NewForeign(some) => {
                     let arc = w.new_alloc();
                     let a = w.retained.len() - 1;
-                    let view = CArcView { instance: Arc::into_raw(arc) as *const c_void, clone_fn: Some(f_clone::<A>), drop_fn: Some(f_drop::<A>) };
+                    let view = CArcView { instance: Arc::into_raw(arc) as *const std::ffi::c_void, clone_fn: Some(f_clone::<A>), drop_fn: Some(f_drop::<A>) };
                     let h = unsafe {
                         if some {
                             H::FSome(std::mem::transmute::<CArcView, CArcSome<c_void>>(view))
